@@ -194,3 +194,47 @@ Qed.
 Theorem never_value_error v st pubs : failure_path_repaired v = true -> reachable v st ->
   ~ returned st pubs RetValueError.
 Proof. intros Hf Hr H. exact (returned_good v st pubs _ Hf Hr H). Qed.
+
+(* ------------------------------------------------------------------ C09: every member of a failed batch that returns gets that failure *)
+Lemma NoDup_app_disj {A} (a b : list A) p : NoDup (a ++ b) -> In p a -> In p b -> False.
+Proof.
+  induction a as [|x a IH]; cbn; intros Hn I1 I2; [contradiction|]. inversion Hn; subst.
+  destruct I1 as [->|I1]; [apply H1; apply in_or_app; auto|auto].
+Qed.
+
+Lemma NoDup_app_l {A} (a b : list A) : NoDup (a ++ b) -> NoDup a.
+Proof. induction a as [|x a IH]; cbn; intros H; [constructor|]. inversion H; subst. constructor; [intros I; apply H2; apply in_or_app; auto|auto]. Qed.
+Lemma NoDup_app_r {A} (a b : list A) : NoDup (a ++ b) -> NoDup b.
+Proof. induction a as [|x a IH]; cbn; intros H; auto. inversion H; auto. Qed.
+
+Lemma NoDup_concat_unique {A} (l : list (list A)) k k' a a' (p : A) :
+  NoDup (concat l) -> nth_error l k = Some a -> nth_error l k' = Some a' -> In p a -> In p a' -> k = k'.
+Proof.
+  revert k k'; induction l as [|x l IH]; intros [|k] [|k'] Hn H1 H2 I1 I2; cbn in *; try discriminate; auto.
+  - inversion H1; subst. exfalso. apply (NoDup_app_disj a (concat l) p); auto.
+    apply in_concat. exists a'. split; auto. eapply nth_error_In; eauto.
+  - inversion H2; subst. exfalso. apply (NoDup_app_disj a' (concat l) p); auto.
+    apply in_concat. exists a. split; auto. eapply nth_error_In; eauto.
+  - f_equal. apply (IH k k'); auto. apply NoDup_app_r in Hn. auto.
+Qed.
+
+Theorem failed_batch_members v calls sched st pubs o k arg p :
+  failure_path_repaired v = true -> NoDup (submitted calls) -> run v (init_state calls) sched = Some st ->
+  returned st pubs o -> nth_error (log (sh st)) k = Some (arg, false) -> In p pubs -> In p arg ->
+  exists idx, o = RetExc k idx /\ slice_at arg idx pubs.
+Proof.
+  intros Hf Hnd Hrun Hret Hk Ip Ia.
+  assert (Hr : reachable v st) by (exists calls, sched; auto).
+  destruct (failure_delivered v st pubs o Hf Hr Hret) as [k' [idx [arg' [ok [H1 [H2 H3]]]]]].
+  pose proof (exactly_once v calls sched st Hf Hrun) as P.
+  assert (NdL : NoDup (logged (sh st))).
+  { apply Permutation_sym in P. pose proof (Permutation_NoDup P Hnd) as N. unfold accounted in N.
+    apply NoDup_app_l in N. exact N. }
+  assert (Ip' : In p arg').
+  { destruct H2 as [pre [post [-> _]]]. apply in_or_app. right. apply in_or_app. left. auto. }
+  assert (E : k = k').
+  { unfold logged in NdL. apply (NoDup_concat_unique (map fst (log (sh st))) k k' arg arg' p NdL); auto.
+    - rewrite nth_error_map, Hk. reflexivity.
+    - rewrite nth_error_map, H1. reflexivity. }
+  subst k'. rewrite Hk in H1. inversion H1; subst. exists idx. auto.
+Qed.
